@@ -345,6 +345,9 @@ let check (op : string) (ty : string) (a : string array) (expected : string) : b
   | "o.is_zero" -> let x = p_soes a.(0) in
      if int_of_nat x.onv > 12 then None else
      Some ((not (p_bool expected)) || List.for_all (fun m -> not (spec_soes_value x.ocubes m)) (dom x.onv))
+  (* C13 / C12 "equality is semantic equality" (Proofs/CheckSoundEq.v) *)
+  | "e.eq" -> if expected = "panic" then Some false else Some (chk_ecube_eq (p_ecube a.(0)) (p_ecube a.(1)) (p_bool expected))
+  | "c.eq" -> if expected = "panic" then Some false else Some (chk_cube_eq (p_cube a.(0)) (p_cube a.(1)) (p_bool expected))
   | "c.display_distinct" ->
      (* recorded: (a == b) | (text a = text b); the statement wants the two to agree *)
      (match split_res expected with [e; t] -> Some (e = t) | _ -> Some false)
